@@ -225,6 +225,15 @@ func scopesC05(thorough bool) []Scope {
 		Scope{Name: "C-any-2x2", GS: synthGS(0, 2, [2]int64{7, 7}), Spec: lat.Spec{Points: lat.Window(2, 2, 2), MinK: 1, MaxK: k(4, 5), Repeats: true}, IDSets: one, Cfgs: allCfgs},
 		Scope{Name: "C-any-rings", GS: synthGS(0, 2, [2]int64{7, 7}), Spec: lat.Spec{Points: lat.Window(1, 1, 2), MinK: 1, MaxK: k(2, 3), Repeats: true, MaxHoles: 2, HoleMinK: 1, HoleMaxK: k(2, 3)}, IDSets: one, Cfgs: allCfgs},
 	)
+	// invalid holes: a fixed shell around the window, the hole is every walk over a block of pixel centres
+	// (figure-eights, spikes, zig-zags as holes; holes whose pieces collapse or turn counter-clockwise)
+	frame := []ref.P{{-6, -6}, {14, -6}, {14, 12}, {-6, 12}}
+	scs = append(scs,
+		Scope{Name: "H-walk-2x2", GS: synthGS(0, 2, [2]int64{6, 6}), Spec: lat.Spec{Prefix: [][]ref.P{frame}, Points: lat.Centres(2, 2), MinK: 1, MaxK: k(8, 10), Repeats: true, NoStutter: true}, IDSets: one, Cfgs: allCfgs},
+		Scope{Name: "H-walk-3x2", GS: synthGS(0, 2, [2]int64{6, 6}), Spec: lat.Spec{Prefix: [][]ref.P{frame}, Points: lat.Centres(3, 2), MinK: 1, MaxK: k(6, 8), Repeats: true, NoStutter: true}, IDSets: one, Cfgs: allCfgs},
+		Scope{Name: "H-any-2x2", GS: synthGS(0, 2, [2]int64{6, 6}), Spec: lat.Spec{Prefix: [][]ref.P{frame}, Points: lat.Window(2, 2, 2), MinK: 1, MaxK: k(4, 5), Repeats: true}, IDSets: one, Cfgs: keepCfgs},
+	)
+	scs = append(scs, kmpScope(thorough))
 	return append(scs, scopesRealBlocks(thorough)...)
 }
 
